@@ -96,6 +96,19 @@ theorem tieA_region_is_uplink_datarate (r : RegionId) (dr : Nat) :
 
 example : isUplinkDatarate .US915 4 = true ∧ isUplinkDatarate .US915 8 = false ∧ isUplinkDatarate .AU915 6 = true := by decide
 
+/-- the region type → table wiring (`§9.15`: "not reached"): the constant `<R as ChannelRegion>::datarates()` returns, and
+for the fixed plans `<F as FixedChannelRegion>::uplink_channels()` / `downlink_channels()`, resolved from the impl of the
+region type `State::new` wires to each `Region`, are the tables the hand model maps the region to -/
+theorem tieA_region_tables (r : RegionId) :
+    datarates r = Gen.RegionDispatch.datarates (toGen r) ∧
+    (r.isFixed = true → Gen.RegionDispatch.uplink_channels (toGen r) = some (uplinkChannels r) ∧
+      Gen.RegionDispatch.downlink_channels (toGen r) = some (downlinkChannels r)) ∧
+    (r.isFixed = false → Gen.RegionDispatch.uplink_channels (toGen r) = none ∧
+      Gen.RegionDispatch.downlink_channels (toGen r) = none) := by
+  cases r <;> refine ⟨rfl, ?_, ?_⟩ <;> intro h <;> first | exact ⟨rfl, rfl⟩ | exact absurd h (by decide)
+
+example : RegionId.isFixed .AU915 = true ∧ (uplinkChannels .AU915)[64]? = some 915900000 := by decide
+
 example : getDatarate .US915 8 = Gen.RegionDispatch.Configuration.get_datarate .US915 8 ∧ (getDatarate .US915 8).isSome ∧
     (getDatarate .US915 5).isNone ∧ (getDatarate .US915 200).isNone := by decide
 example : txPowerAdjust .EU868 3 = .ok (some 10) := by rfl
@@ -104,6 +117,7 @@ example : txPowerAdjust .EU868 3 = .ok (some 10) := by rfl
 #print axioms tieA_region_has_fixed_channel_plan
 #print axioms tieA_region_check_tx_power
 #print axioms tieA_region_is_uplink_datarate
+#print axioms tieA_region_tables
 end C09
 
 namespace C12
